@@ -72,7 +72,7 @@ def handleOptspec : List Sexp → Sexp
       let g : Opt.Guard := fun p nd => match p, nd with
         | .fold, .array .. => foldArrays.asBool.getD true
         | _, _ => true
-      if refuseRange env n then .list [.atom "skipped"] else
+      if refuseRange env n 200000 then .list [.atom "skipped"] else
       let ur := Spec.run c none n
       let u := ur.1
       match Opt.optimizeWith g fl fns optWorld n with
